@@ -370,18 +370,38 @@ class Capture:
         self.cls._estimate_alpha_beta = self.orig
 
 
-def run_fit(data, weights, delta, delta0, method):
-    """returns dict(alpha, beta, delta, args=(x, p, w)) or dict(err=...)"""
+def as_given(data, weights, container):
+    """data / array weights as the user hands them over: ndarray (default; whole-number samples as an integer array),
+    Python list or tuple (array_like)"""
+    arr = np.array(data, dtype=float)
+    if len(arr) and np.all(arr == np.round(arr)) and np.max(np.abs(arr)) < 2 ** 50:
+        arr = arr.astype(np.int64)  # whole-number samples are handed over as an integer array
+    w = weights
+    if container in ("list", "tuple"):
+        conv = list if container == "list" else tuple
+        arr = conv(arr.tolist())
+        if isinstance(weights, list):
+            w = conv(float(v) for v in weights)
+    elif isinstance(weights, list):
+        w = np.array(weights, dtype=float)
+    return arr, w
+
+
+def run_fit(data, weights, delta, delta0, method, container=None, before=None):
+    """returns dict(alpha, beta, delta, args=(x, p, w)) or dict(err=...).
+    `before`: (data, weights) the SAME object is fitted to first (object re-use: the free-delta branch starts its
+    search at the object's current delta)"""
     cls = EW()
     with Capture() as cap, np.errstate(all="ignore"), warnings.catch_warnings():
         warnings.simplefilter("ignore")
         try:
             dist = cls(f_delta=delta) if delta is not None else cls(delta=delta0)
-            arr = np.array(data, dtype=float)
-            if len(arr) and np.all(arr == np.round(arr)) and np.max(np.abs(arr)) < 2 ** 50:
-                arr = arr.astype(np.int64)  # whole-number samples are handed over as an integer array
-            dist.fit(arr, method=method,
-                     weights=(np.array(weights, dtype=float) if isinstance(weights, list) else weights))
+            if before is not None:
+                a0, w0 = as_given(before[0], before[1], container)
+                dist.fit(a0, method=method, weights=w0)
+                cap.calls.clear()
+            arr, w = as_given(data, weights, container)
+            dist.fit(arr, method=method, weights=w)
         except Exception as e:  # noqa: BLE001
             return {"err": type(e).__name__, "msg": str(e)[:200]}
     out = {"alpha": float(dist.alpha), "beta": float(dist.beta), "delta": float(dist.delta)}
@@ -423,7 +443,10 @@ def gen_fits(rng, count, nmax):
         if flavour in (2, 3):
             x[rng.choice(len(x), size=int(rng.integers(1, max(2, len(x) // 20))), replace=False)] = 0.0
         if k % 9 == 4:
-            x = np.round(x * (20.0 / max(np.median(x), 1e-9)))  # whole numbers (counts, whole seconds): integer dtype
+            # whole numbers (counts, whole seconds; millimetres / raw sensor counts for the large magnitudes, where
+            # x**2 and x**3 leave the int64 range): handed over as an integer-dtype array
+            target = [20.0, 20.0, 3.0e6, 5.0e9][(k // 9) % 4]
+            x = np.round(x * (target / max(np.median(x), 1e-9)))
         if np.count_nonzero(x) < 10 or len(np.unique(x[x != 0])) < 5:
             x = random_sample(rng, n)
         sp = specs[k % len(specs)]
@@ -431,6 +454,9 @@ def gen_fits(rng, count, nmax):
             w = rng.uniform(0.1, 2.0, len(x))
             if rng.integers(0, 2):
                 w = w * (x + 0.1 * np.mean(x))
+            if k % 14 == 5:
+                # boundary of "positive": some observations get weight exactly 0
+                w[rng.choice(len(x), size=max(1, len(x) // 8), replace=False)] = 0.0
             weights = [float(v) for v in w]
         elif sp == "array1":
             weights = [1.0] * len(x)
@@ -442,7 +468,8 @@ def gen_fits(rng, count, nmax):
                "delta0": float(rng.choice([1.0, 0.8, 1.4])) if free else None,
                "scale": float(rng.choice([2.0 ** int(rng.integers(-20, 20)), float(10 ** rng.uniform(-6, 6))])),
                "perm_seed": int(rng.integers(0, 2 ** 31)),
-               "method": str(rng.choice(["lsq", "wlsq"]))}
+               "method": str(rng.choice(["lsq", "wlsq", "lsq", "wlsq", "LSQ", "WLSQ", "Wlsq"])),
+               "container": [None, None, "list", "tuple"][int(rng.integers(0, 4))]}
 
 
 def fit_corpus():
@@ -477,9 +504,11 @@ def wkind(weights):
     return "array"
 
 
-def sig(case, predicate):
-    return {"entry": "ExponentiatedWeibullDistribution.fit(method=lsq|wlsq)", "weights": wkind(case["weights"]).split(":")[0],
-            "delta": "free" if case["delta"] is None else "fixed", "predicate": predicate}
+def sig(case, predicate, **extra):
+    d = {"entry": "ExponentiatedWeibullDistribution.fit(method=lsq|wlsq)", "weights": wkind(case["weights"]).split(":")[0],
+         "delta": "free" if case["delta"] is None else "fixed", "predicate": predicate}
+    d.update(extra)
+    return d
 
 
 def fit_lines(case, delta):
@@ -501,7 +530,7 @@ def fit_lines(case, delta):
     return lines + tabs + [prep, fit, "CLEAR"], 2
 
 
-def oracle_fit(case, base, scaled, shuffled):
+def oracle_fit(case, base, scaled, shuffled, refit=None, regular=True):
     """property predicates on the implementation's outputs; list of (predicate, detail)"""
     bad = []
     if "err" in base:
@@ -523,11 +552,11 @@ def oracle_fit(case, base, scaled, shuffled):
         bad.append(("minimiser", f"fit gives alpha={base['alpha']!r} beta={base['beta']!r}; weighted least squares at "
                     f"delta={delta!r} is alpha={ref['alpha']!r} beta={ref['beta']!r} (cond {ref['cond']:.3g})"))
     free = case["delta"] is None
-    for name, other in (("scale", scaled), ("order", shuffled)):
-        if other is None:
+    for name, other in (("scale", scaled), ("order", shuffled), ("refit", refit)):
+        if other is None or (name == "refit" and free and not regular):
             continue
         if "err" in other:
-            bad.append((name + "_invariance", f"variant failed: {other['err']}"))
+            bad.append((name + "_invariance", f"variant failed: {other['err']} {other.get('msg', '')}"))
             continue
         if free:
             # fmin (xtol = ftol = 1e-4) sees the same function up to rounding
@@ -536,10 +565,58 @@ def oracle_fit(case, base, scaled, shuffled):
         else:
             ok = close(other["beta"], base["beta"], 2 * rb) and close(other["alpha"], base["alpha"], 2 * ra)
         if not ok:
-            what = f"weights*{case['scale']!r}" if name == "scale" else "jointly shuffled data and weights"
+            what = (f"weights*{case['scale']!r}" if name == "scale" else "jointly shuffled data and weights" if name == "order"
+                    else "a second fit of the same object to the same data")
             bad.append((name + "_invariance", f"{what}: alpha,beta,delta = {other['alpha']!r},{other['beta']!r},"
                         f"{other['delta']!r} vs {base['alpha']!r},{base['beta']!r},{base['delta']!r}"))
     return bad
+
+
+FREE_DELTA_RTOL = 2e-5
+NO_MINIMISER = ("reference x-space error has no interior minimiser for delta in [0.05, 1000]: still falling at an end of the "
+                "range in which it is finite")
+
+
+def delta_profile_class(case):
+    """a property of the INPUT (data + weights) only: the reference error on a logarithmic grid of delta in [0.05, 1000]
+    (refined next to the point where it stops being finite: for small delta p**(1/delta) underflows).  If the smallest
+    value sits at an end of the finite range there is no local minimiser for the search to return (upper end: heavy-tailed
+    / log-normal-like samples, delta runs away; lower end: very concentrated samples, the error falls until the transform
+    breaks down)."""
+    grid = [0.05 * (1000 / 0.05) ** (i / 14.0) for i in range(15)]
+    errs = [ref_error(case["data"], case["weights"], d) for d in grid]
+    fin = [k for k, e in enumerate(errs) if math.isfinite(e)]
+    if len(fin) < 3:
+        return "no_interior_minimiser"
+    pts = [(errs[k], grid[k]) for k in fin]
+    if fin[0] > 0:
+        lo, hi = grid[fin[0] - 1], grid[fin[0]]
+        for t in range(1, 12):
+            d = lo * (hi / lo) ** (t / 12.0)
+            e = ref_error(case["data"], case["weights"], d)
+            if math.isfinite(e):
+                pts.append((e, d))
+    best = min(pts)[1]
+    ds = sorted(d for _, d in pts)
+    return "no_interior_minimiser" if best in (ds[0], ds[-1]) else "regular"
+
+
+def free_delta_gap(case, delta):
+    """how much lower the reference x-space error gets within a factor 1.3 of the returned delta (bounded Brent search of
+    scipy.optimize.minimize_scalar on the harness' own error function), relative to the error at the returned delta;
+    ~1e-7 for a converged fmin (xtol = ftol = 1e-4), large when the search was truncated"""
+    from scipy.optimize import minimize_scalar
+
+    e0 = ref_error(case["data"], case["weights"], delta)
+    if not math.isfinite(e0) or not e0 > 0:
+        return None
+
+    def f(t):
+        v = ref_error(case["data"], case["weights"], float(t))
+        return v if math.isfinite(v) else 1e300
+
+    r = minimize_scalar(f, bounds=(delta / 1.3, delta * 1.3), method="bounded", options={"xatol": 1e-7 * delta})
+    return max(0.0, (e0 - min(float(r.fun), e0)) / e0), float(r.x)
 
 
 def observe_free_delta(case, base):
@@ -555,6 +632,17 @@ def observe_free_delta(case, base):
             if math.isfinite(e):
                 worst = max(worst, (e0 - e) / max(e0, 1e-300))
     return worst
+
+
+def refit_variant(case):
+    """object re-use with history: OTHER data (half of the sample, scaled by 1.5) the same object is fitted to first"""
+    data = np.array(case["data"], dtype=float)
+    rng = np.random.default_rng(case["perm_seed"] + 1)
+    idx = rng.permutation(len(data))[: max(10, len(data) // 2)]
+    w = case["weights"]
+    first = [float(v) for v in data[idx] * 1.5]
+    return first, ([float(v) for v in np.array(w)[idx]] if isinstance(w, list) and len(w) == len(data) else
+                   (w if not isinstance(w, list) else None))
 
 
 def variants(case):
@@ -577,11 +665,27 @@ def process_fits(ck, cases):
         return
     impls, lines, nl = [], [], []
     for case in cases:
-        base = run_fit(case["data"], case["weights"], case["delta"], case["delta0"], case["method"])
+        cont = case.get("container")
+        base = run_fit(case["data"], case["weights"], case["delta"], case["delta0"], case["method"], cont)
         sc, sh = variants(case)
-        scaled = run_fit(sc[0], sc[1], case["delta"], case["delta0"], case["method"]) if sc else None
-        shuffled = run_fit(sh[0], sh[1], case["delta"], case["delta0"], case["method"]) if sh else None
-        impls.append((base, scaled, shuffled))
+        scaled = run_fit(sc[0], sc[1], case["delta"], case["delta0"], case["method"], cont) if sc else None
+        shuffled = run_fit(sh[0], sh[1], case["delta"], case["delta0"], case["method"], cont) if sh else None
+        refit = hist = None
+        if "err" not in base:
+            # the same object fitted twice to the same data: same result (free delta: within optimiser tolerance, the
+            # second search starts at the first result)
+            refit = run_fit(case["data"], case["weights"], case["delta"], case["delta0"], case["method"], cont,
+                            before=(case["data"], case["weights"]))
+            # ... and fitted to OTHER data first: with a free delta the search starts where the other data left the
+            # object; the property does not say what then has to come out: counted, no verdict (fixed delta: verdict)
+            hist = run_fit(case["data"], case["weights"], case["delta"], case["delta0"], case["method"], cont,
+                           before=refit_variant(case))
+            if case["delta"] is None:
+                same = "err" not in hist and close(hist["delta"], base["delta"], 2e-3) and close(hist["beta"], base["beta"], 2e-2)
+                ck.count("observed_no_verdict:free_delta_refit_after_other_data:"
+                         + ("nonfinite" if "err" in hist else "same_result" if same else "other_result"))
+                hist = None
+        impls.append((base, scaled, shuffled, refit, hist))
         dl = None if "err" in base and "delta" not in base else base.get("delta")
         if case["delta"] is not None:
             dl = case["delta"]
@@ -590,7 +694,7 @@ def process_fits(ck, cases):
         nl.append(k)
     ans = ck.driver.run(lines)
     pos = 0
-    for case, (base, scaled, shuffled), k in zip(cases, impls, nl):
+    for case, (base, scaled, shuffled, refit, hist), k in zip(cases, impls, nl):
         a_prep = ans[pos]
         a_fit = ans[pos + 1] if k == 2 else None
         pos += k
@@ -605,18 +709,46 @@ def process_fits(ck, cases):
             ck.count("fit_with_zeros")
         if len(np.unique(data)) < len(data):
             ck.count("fit_with_ties")
-        bad = oracle_fit(case, base, scaled, shuffled)
+        ck.count("method=" + case["method"])
+        ck.count("container=" + (case.get("container") or "ndarray"))
+        if isinstance(case["weights"], list) and case["weights"] and min(case["weights"]) == 0:
+            ck.count("array_weights_with_zeros")
+        if len(data) and float(np.max(np.abs(data))) > 2.0e6 and np.all(data == np.round(data)):
+            ck.count("integer_dtype_above_2e6")
+        if refit is not None:
+            ck.count("refit_same_object")
+        profile = delta_profile_class(case) if case["delta"] is None and "err" not in base else "regular"
+        bad = [(pred, detail, {}) for pred, detail in oracle_fit(case, base, scaled, shuffled, refit, profile == "regular")]
+        if hist is not None:  # fixed delta: the closed form has no memory
+            bad += [(pred, "the object was fitted to OTHER data in between: " + detail, {})
+                    for pred, detail in oracle_fit(case, base, None, None, hist)
+                    if pred == "refit_invariance"]
         if case["delta"] is None and "err" not in base:
+            ck.count("free_delta_profile=" + profile)
+            # a free delta is a local minimiser of the weighted quantile error in x-space: the harness' own error function,
+            # minimised by a bounded scalar search around the returned delta, must not get lower than at the returned delta
+            for label, fit in (("fit", base), ("refit of the same object", refit)):
+                if fit is None or "err" in fit:
+                    continue
+                g = free_delta_gap(case, fit["delta"])
+                if g is None:
+                    continue
+                ck.extra["free_delta_worst_gap_" + profile] = max(ck.extra.get("free_delta_worst_gap_" + profile, 0.0), g[0])
+                if g[0] > FREE_DELTA_RTOL:
+                    bad.append(("free_delta_local_min",
+                                f"{label}: returned delta={fit['delta']!r}; the reference x-space error is lower by {g[0]:.3g} "
+                                f"(relative) at delta={g[1]!r}, within a factor 1.3",
+                                {"input_class": NO_MINIMISER} if profile != "regular" else {}))
             worst = observe_free_delta(case, base)
             if worst is not None:
                 ck.extra["free_delta_observed"] = ck.extra.get("free_delta_observed", 0) + 1
                 ck.extra["free_delta_worst_relative_decrease"] = max(
                     ck.extra.get("free_delta_worst_relative_decrease", 0.0), worst)
-                if worst > 1e-3:
+                if worst > 1e-3 and not any(b[0] == "free_delta_local_min" for b in bad):
                     bad.append(("free_delta_local_min", f"reference error decreases by {worst:.3g} (relative) within "
-                                f"3% of the returned delta={base['delta']!r}"))
-        for pred, detail in bad:
-            ck.fail(sig(case, pred), case, detail)
+                                f"3% of the returned delta={base['delta']!r}", {}))
+        for pred, detail, extra in bad:
+            ck.fail(sig(case, pred, **extra), case, detail)
         # ---- correspondence
         d = None
         mp = parse_ok(a_prep, 0)
@@ -703,7 +835,10 @@ def main(ck):
         "corpus witnesses (DESIGN section 4 #5/#5b), then (A) random direct calls of _estimate_alpha_beta/_wlsq_error "
         f"(n 3..{nmax} log-uniform; Weibull values, ties, zeros, arbitrary p, weights over 12 decades) and (B) whole fits "
         f"(n 30..{nmax if thorough else 2000}; Weibull/lognormal/exponentiated-Weibull/gamma samples with ties and zeros; weights "
-        "None / 3 keywords / positive arrays; delta fixed and free; each with a scaled and a jointly shuffled variant). "
+        "None / 3 keywords (any letter case) / positive arrays, some with entries exactly 0; data and array weights as "
+        "ndarray / list / tuple; whole-number samples as int64 arrays with medians 20, 3e6, 5e9; method lsq / wlsq / LSQ / "
+        "WLSQ / Wlsq; delta fixed and free; each with a scaled and a jointly shuffled variant, a second fit of the same "
+        "object to the same data and a fit after the object was fitted to other data). "
         "Non-trivial: >= 3 retained points and a non-degenerate regression (A), >= 10 non-zero observations and a "
         "successful fit (B); distinct by SHA1 of the case"
     )
@@ -714,8 +849,14 @@ def main(ck):
         "the arguments reaching _estimate_alpha_beta are recorded by a wrapper installed inside the harness process",
     ]
     ck.partial = {
-        "free_delta_local_minimiser": "scipy.optimize.fmin's result is only observed: the reference x-space error must "
-                                      "not decrease by more than 1e-3 (relative) within +-1% / +-3% of the returned delta",
+        "free_delta_local_minimiser": "scipy.optimize.fmin's result is only observed: the harness' reference x-space error, "
+                                      "minimised by a bounded scalar search within a factor 1.3 of the returned delta, must "
+                                      "not get lower than at the returned delta by more than 2e-5 relative (and not by "
+                                      "more than 1e-3 at +-1% / +-3%); samples whose error has no interior minimiser in "
+                                      "delta are a known finding keyed on the input",
+        "object re-use": "second fit of the same object to the same data = same result (observed); free delta after the "
+                         "object was fitted to OTHER data: history-dependent by construction (search starts at the "
+                         "object's delta), counted without verdict",
     }
     process_direct(ck, list(direct_corpus()))
     process_fits(ck, list(fit_corpus()))
@@ -732,17 +873,28 @@ def main(ck):
 def replay(ck, payload):
     case = payload["case"]
     if case.get("part") == "B":
-        base = run_fit(case["data"], case["weights"], case["delta"], case["delta0"], case["method"])
+        cont = case.get("container")
+        base = run_fit(case["data"], case["weights"], case["delta"], case["delta0"], case["method"], cont)
         sc, sh = variants(case)
-        scaled = run_fit(sc[0], sc[1], case["delta"], case["delta0"], case["method"]) if sc else None
-        shuffled = run_fit(sh[0], sh[1], case["delta"], case["delta0"], case["method"]) if sh else None
+        scaled = run_fit(sc[0], sc[1], case["delta"], case["delta0"], case["method"], cont) if sc else None
+        shuffled = run_fit(sh[0], sh[1], case["delta"], case["delta0"], case["method"], cont) if sh else None
+        refit = None
+        if "err" not in base:
+            refit = run_fit(case["data"], case["weights"], case["delta"], case["delta0"], case["method"], cont,
+                            before=(case["data"], case["weights"]))
+            hist = run_fit(case["data"], case["weights"], case["delta"], case["delta0"], case["method"], cont,
+                           before=refit_variant(case))
+            print("same object fitted to other data first:", {k: v for k, v in hist.items() if k != "args"})
         print("fit:", {k: v for k, v in base.items() if k != "args"})
-        bad = oracle_fit(case, base, scaled, shuffled)
+        profile = delta_profile_class(case) if case["delta"] is None and "err" not in base else "regular"
+        bad = oracle_fit(case, base, scaled, shuffled, refit, profile == "regular")
         if case["delta"] is None and "err" not in base:
-            worst = observe_free_delta(case, base)
-            print("free delta (observed): largest relative decrease of the reference error nearby:", worst)
-            if worst is not None and worst > 1e-3:
-                bad.append(("free_delta_local_min", f"decrease {worst:.3g}"))
+            for label, fit in (("fit", base), ("refit", refit)):
+                g = free_delta_gap(case, fit["delta"]) if fit and "err" not in fit else None
+                print(f"free delta ({label}): returned {fit and fit.get('delta')!r}; (relative decrease, argmin) of the reference "
+                      f"error within a factor 1.3: {g}; profile class {profile}")
+                if g is not None and g[0] > FREE_DELTA_RTOL:
+                    bad.append(("free_delta_local_min", f"{label}: decrease {g[0]:.3g}"))
         for pred, detail in bad:
             print("oracle:", pred, detail)
         return not bad
